@@ -35,7 +35,7 @@ func lcValid(v uint16) bool { return lcSpec(v) != 7 }
 
 func compStatus(c CompDesc) int {
 	if c.Nil {
-		return stPanicExpected
+		return stWrongSyntax // a nil entry (decoded from null) is malformed, not a crash
 	}
 	if c.MV == nil {
 		return stMissingMandatory
